@@ -51,6 +51,9 @@ func genCase(t *rapid.T) Case {
 			c.Cfg.TLS = "cert"
 		}
 	}
+	if rapid.IntRange(0, 2).Draw(t, "shared-users") == 0 {
+		c.SharedUsers = rapid.IntRange(1, 2).Draw(t, "distinct-users")
+	}
 	if rapid.IntRange(0, 2).Draw(t, "password-logins") == 0 {
 		c.Auth = true
 		for i := 0; i < n; i++ {
